@@ -26,7 +26,10 @@ def describe(tier):
                 "expressions, sanitised and unsanitised, incl. repeated and descending keys; EvaluatedFormatConstraint in {True,False} x "
                 "{None,'','msg'}; (results) every AhbExpressionEvaluationResult / RequirementConstraintEvaluationResult / "
                 "FormatConstraintEvaluationResult produced by evaluating the C09 menu (single and two-part AHB expressions) under all 6 "
-                "permutations of FULFILLED/UNFULFILLED/UNKNOWN (this is where undetermined = null outcomes arise). Oracle: "
+                "permutations of FULFILLED/UNFULFILLED/UNKNOWN (this is where undetermined = null outcomes arise). (whitespace) 4 AHB templates with every combination of "
+                f"{[repr(w) for w in WS]} in 4 gap classes; (deep) right-nested trees of depth {DEEP[tier]}; (histories) every sequence of <= {HIST_DEPTH[tier]} "
+                f"operations from {HIST_OPS} (rejected loads of documents malformed at nesting depth 1/5/25, validate(), the concise schemata, a deep load) "
+                "executed in one process, then the round trip of three reference trees. Oracle: "
                 "schema.load(schema.dump(x)) == x and schema.loads(schema.dumps(x)) == x (trees compared with token types); "
                 "evaluate(round-tripped tree) == evaluate(tree). Non-trivial = objects with a null outcome, a repeatability, an "
                 "unsanitised extract or >= 2 parts.",
@@ -36,10 +39,34 @@ def describe(tier):
     }
 
 
+WS = [" ", "", "  ", "\t", "\n", "\r\n"]
+WS_TEMPLATES = ["Muss{0}[1]{1}U{2}[2]{3}Soll{0}[3]", "X{0}[1]{1}O{2}([2]{3}U [3]){1}", "Muss{0}[1]{1}[901]{2}K{3}", "Soll{0}[2P0..1]{1}X{2}[UB1]{3}"]
+DEEP = {"quick": [10, 30, 50], "thorough": [5, 10, 20, 30, 40, 45, 50]}
+# histories (E2): operations on the schemata between round trips
+HIST_OPS = ["bad1", "bad5", "bad25", "validate", "validate-bad", "concise-load", "concise-dump", "load-deep"]
+HIST_DEPTH = {"quick": 3, "thorough": 4}
+HIST_TREES = ["[1] U ([2] O [3])", "Muss [1] U [2P0..1] Soll [UB1] K", "[1]"]
+
+
+def deep_expr(d):
+    s = f"[{d + 1}]"
+    for i in range(d, 0, -1):
+        s = f"[{i}] {'UO'[i % 2]} ({s})"
+    return s
+
+
 def plan(tier, seed):
     b = BOUNDS[tier]
     parts = 48 if tier == "quick" else 384
     items = [{"fam": "trees", "n": b["tree_n"], "part": p, "parts": parts} for p in range(parts)]
+    for t in range(len(WS_TEMPLATES)):
+        for w0 in range(len(WS)):
+            items.append({"fam": "whitespace", "tmpl": t, "w0": w0})
+    for d in DEEP[tier]:
+        items.append({"fam": "deep", "d": d})
+    for first in range(len(HIST_OPS)):
+        for second in range(len(HIST_OPS)):
+            items.append({"fam": "history", "prefix": [first, second], "depth": HIST_DEPTH[tier]})
     for m in range(0, b["gen"] + 1):
         for n in range(0, b["gen"] + 1):
             items.append({"fam": "cer", "m": m, "n": n})
@@ -164,6 +191,88 @@ def check_tree_expr(expr, concise_first=False):
     return out, n
 
 
+def _bad_doc(depth):
+    """a document that is well-formed down to `depth` nested trees and malformed at the deepest one"""
+    doc = {"type": "condition", "children": [{"token": {"value": "1", "type": 42}, "tree": None}]}  # token type must be a string
+    for _ in range(depth - 1):
+        doc = {"type": "and_composition", "children": [{"token": None, "tree": doc}]}
+    return doc
+
+
+_HIST = {}
+
+
+def _hist_setup():
+    I = _I
+    if not _HIST:
+        sch = _SCH["tree"]()
+        _HIST["valid_doc"] = sch.dump(I.parse_condition_expression_to_tree("[1] U ([2] O [3])"))
+        _HIST["deep_doc"] = sch.dump(I.parse_condition_expression_to_tree(deep_expr(40)))
+        trees = []
+        for e in HIST_TREES:
+            t = I.parse_condition_expression_to_tree(e) if e.startswith("[") else \
+                I.parse_ahb_expression_to_single_requirement_indicator_expressions(e)
+            trees.append((e, t))
+        _HIST["trees"] = trees
+    return _HIST
+
+
+def apply_hist_op(op):
+    """one operation of a history on the tree schemata; failures of the operation itself are expected and ignored"""
+    from ahbicht.json_serialization.concise_condition_key_tree_schema import ConciseConditionKeyTreeSchema
+    from ahbicht.json_serialization.concise_tree_schema import ConciseTreeSchema
+
+    I = _I
+    h = _hist_setup()
+    sch = _SCH["tree"]
+    if op.startswith("bad"):
+        I.try_call(sch().load, _bad_doc(int(op[3:])))
+    elif op == "validate":
+        I.try_call(sch().validate, h["valid_doc"])
+    elif op == "validate-bad":
+        I.try_call(sch().validate, _bad_doc(3))
+    elif op == "concise-load":
+        for c in (ConciseTreeSchema, ConciseConditionKeyTreeSchema):
+            I.try_call(c().load, h["valid_doc"])
+    elif op == "concise-dump":
+        for c in (ConciseTreeSchema, ConciseConditionKeyTreeSchema):
+            I.try_call(c().dump, h["trees"][0][1])
+    elif op == "load-deep":
+        I.try_call(sch().load, h["deep_doc"])
+    else:
+        raise ValueError(op)
+
+
+def check_history(ops):
+    """after the operations `ops` every reference tree still round-trips"""
+    h = _hist_setup()
+    for op in ops:
+        apply_hist_op(op)
+    out = []
+    for e, t in h["trees"]:
+        for v in roundtrip("tree", t, {"expr": e, "history": list(ops)}):
+            v["kind"] = "after-history/" + v["kind"]
+            out.append(v)
+    return out
+
+
+def check_ws_expr(ahb):
+    I = _I
+    out = []
+    n = 0
+    r = I.try_call(I.parse_ahb_expression_to_single_requirement_indicator_expressions, ahb)
+    if r[0] == "exc":
+        return [{"kind": "well-formed-ahb-expression-rejected", "case": {"expr": ahb}, "expected": "a tree", "observed": r[1], "msg": repr(ahb)}], 0
+    out += roundtrip("tree", r[1], {"expr": ahb, "what": "unresolved-ahb-tree", "ws": True})
+    n += 1
+    env = I.Env(rc=ENV_RC, fc={"901": (True, None)}, packages=PACKAGES)
+    tr = I.try_call(lambda: I.run(I.parse_expression_including_unresolved_subexpressions(ahb, resolve_packages=True, replace_time_conditions=True), env))
+    if tr[0] == "ok":
+        out += roundtrip("tree", tr[1], {"expr": ahb, "what": "resolved-tree", "flags": [True, True], "ws": True})
+        n += 1
+    return out, n
+
+
 def _tree_exprs(nmax):
     k = 0
     for n in range(1, nmax + 1):
@@ -202,6 +311,24 @@ def run_item(item):
                 continue
             vs, n = check_tree_expr(expr, concise_first=(i % 3 == 0))
             acc(vs, n, ".." in expr or "UB" in expr, {"expr": expr, "objects": n})
+    elif fam == "whitespace":
+        for w1, w2, w3 in itertools.product(WS, repeat=3):
+            ahb = WS_TEMPLATES[item["tmpl"]].format(WS[item["w0"]], w1, w2, w3)
+            vs, n = check_ws_expr(ahb)
+            acc(vs, n, True, {"expr": ahb})
+    elif fam == "deep":
+        expr = deep_expr(item["d"])
+        t = I.parse_condition_expression_to_tree(expr)
+        acc(roundtrip("tree", t, {"expr": expr, "what": "condition-tree"}), 1, True, {"depth": item["d"]})
+        ta = I.parse_ahb_expression_to_single_requirement_indicator_expressions("Muss " + expr)
+        acc(roundtrip("tree", ta, {"expr": "Muss " + expr, "what": "unresolved-ahb-tree"}), 1, True, {"depth": item["d"]})
+    elif fam == "history":
+        pre = [HIST_OPS[i] for i in item["prefix"]]
+        for k in range(0, item["depth"] - len(pre) + 1):
+            for rest in itertools.product(HIST_OPS, repeat=k):
+                ops = pre + list(rest)
+                acc(check_history(ops), 1, True, {"history": ops})
+                r.stat("histories")
     elif fam == "cer":
         from ahbicht.models.categorized_key_extract import CategorizedKeyExtract
 
@@ -280,6 +407,10 @@ def replay(case):
     if _I is None:
         worker_init()
     what = case.get("what")
+    if "history" in case:
+        return check_history(case["history"])
+    if case.get("ws"):
+        return check_ws_expr(case["expr"])[0]
     if what in ("condition-tree",) or (what == "categorized-key-extract"):
         vs, _ = check_tree_expr(case["expr"], case.get("concise_first", False))
     elif what in ("unresolved-ahb-tree", "resolved-tree"):
